@@ -33,7 +33,7 @@ pub fn run(_tier: &str) -> Report {
         ("V5", RoomVersionRules::V5), ("V6", RoomVersionRules::V6), ("V7", RoomVersionRules::V7), ("V8", RoomVersionRules::V8),
         ("V9", RoomVersionRules::V9), ("V10", RoomVersionRules::V10), ("V11", RoomVersionRules::V11),
     ];
-    let keys = ["content", "hashes", "signatures", "unsigned", "sender", "depth", "origin", "x.extra", "age_ts", "outlier", "destinations", "prev_state"];
+    let keys = ["content", "hashes", "signatures", "unsigned", "sender", "depth", "origin", "x.extra", "age_ts", "event_id", "destinations", "prev_state"];
     let (mut n, mut f_content, mut f_ref, mut f_size, mut f_panic) = (0u64, vec![], vec![], vec![], vec![]);
     for ty in ["m.room.message", "m.room.member", "m.room.create"] {
         for subset in 0u32..(1 << keys.len()) {
@@ -50,7 +50,7 @@ pub fn run(_tier: &str) -> Report {
                     "unsigned" => json!({"age": 5}),
                     "depth" => json!(7),
                     "age_ts" => json!(1000),
-                    "outlier" => json!(true),
+                    "event_id" => json!("$one:domain"),
                     "destinations" => json!(["a.org", "b.org"]),
                     _ => json!(format!("v-{k}")),
                 };
@@ -144,7 +144,7 @@ pub fn run(_tier: &str) -> Report {
         }
     }
     Report {
-        bound: "every subset of 12 optional top-level keys (incl. the transient keys age_ts / outlier / destinations other implementations strip) x 3 event types x RoomVersionRules V1..V11; size limit at 65535/65536 bytes with the bytes in a field that redaction keeps, in content.body and in an unspecified top-level key (5 event type / room version pairs)".to_owned(),
+        bound: "every subset of 12 optional top-level keys (incl. event_id and the transient keys age_ts / destinations other implementations strip) x 3 event types x RoomVersionRules V1..V11; size limit at 65535/65536 bytes with the bytes in a field that redaction keeps, in content.body and in an unspecified top-level key (5 event type / room version pairs)".to_owned(),
         cases: n,
         obligations: vec![
             ("content_hash_is_sha256_of_event_without_hashes_signatures_unsigned", (3 << keys.len()) as u64, f_content),
